@@ -10,11 +10,30 @@ import sys
 import traceback
 
 
+def supervise(a):
+    """Run the check in a child process; a child killed by a signal (a solver library crashing the interpreter) is a
+    crash of the checker, not a verdict: it is re-run (at most twice) and never mapped to a violation."""
+    import subprocess
+    env = dict(os.environ, PYVC_CHILD='1')
+    rc = 3
+    for attempt in range(3):
+        p = subprocess.run([sys.executable, '-m', 'pyvc.check', a.pid, '--tier', a.tier], env=env)
+        rc = p.returncode
+        if rc in (0, 1, 2, 3):
+            return rc
+        print('NOTE property=%s checker process ended abnormally (return code %s), attempt %d: re-running' % (a.pid, rc, attempt + 1))
+        sys.stdout.flush()
+    print('CHECKER-ERROR property=%s checker process ended abnormally three times (not a violation)' % a.pid)
+    return 3
+
+
 def main(argv=None):
     ap = argparse.ArgumentParser()
     ap.add_argument('pid')
     ap.add_argument('--tier', default=os.environ.get('VERIF_TIER', 'quick'), choices=['quick', 'thorough'])
     a = ap.parse_args(argv)
+    if os.environ.get('PYVC_CHILD') != '1':
+        return supervise(a)
     here = os.path.dirname(os.path.dirname(os.path.abspath(__file__)))
     if here not in sys.path:
         sys.path.insert(0, here)
